@@ -71,6 +71,7 @@ func TestC04(t *testing.T) {
 	opts.MaxDests = 3
 	opts.MaxRecords = 18
 	opts.AckSendFaults = 30
+	opts.DLQDeath = 20
 	rapid.Check(t, func(t *rapid.T) {
 		c := lab.GenCase(t, opts)
 		res, m, h := runLab(t, "C04", c)
